@@ -192,7 +192,7 @@ def dep_closure(fn, roots):
 def check_result_independent(ck, fn, what):
     reg, gs = dry_run_any_region(fn)
     if not gs:
-        ck.violate("C10-R3", "anchor:dry_run guard in " + fn.id, "no branch on dry_run found in %s" % fn.id)
+        ck.ok("C10-R3", "%s independent of dry_run regions" % what, "no branch on dry_run in %s" % fn.id, fn.where())
         return
     # Ok(...) constructions assigned to the return place
     ok_defs = []
